@@ -57,7 +57,14 @@ def render_graph(pkg, name, kinds, edges, forms, hidden):
         lines.append("        r += (fa[0] if isinstance(fa, list) else fa['k'] if isinstance(fa, dict) else fa)(0)")
         if i in hidden:
             lines.append("    if fa is None:")
-            lines.append("        r += globals()['n%d'](x - 1)" % hidden[i])
+            # the hidden edge is exercised through one of the three call forms (chosen by the node number, so that all occur)
+            hform = (i + hidden[i]) % 3
+            if hform == 0:
+                lines.append("        r += globals()['n%d'](x - 1)" % hidden[i])
+            elif hform == 1:
+                lines.append("        r += globals()['n%d'].call_batch([{'x': x - 1}])[0]" % hidden[i])
+            else:
+                lines.append("        r += globals()['n%d'].map_over_range(x=[x - 1])[x - 1]" % hidden[i])
         lines.append("    return r")
         lines.append("")
     for (i, j), form in sorted(forms.items()):
